@@ -206,6 +206,17 @@ def join_blocks(
             assert not block1.size
             alignment_data[block1] = block2_align
 
+    # block2 leaves the module; the tables keyed by whole blocks must not keep
+    # an entry for it.
+    if isinstance(block2, gtirb.DataBlock):
+        block_tables = (_auxdata.types, _auxdata.encodings)
+    else:
+        block_tables = (_auxdata.profile, _auxdata.sccs)
+    for block_table_def in block_tables:
+        block_table = block_table_def.get(module)
+        if block_table:
+            block_table.pop(block2, None)
+
     block1.size = block1.size + block2.size
     cache.block_ordering[block2.section].remove_block(block2)
     block2.byte_interval = None
